@@ -52,6 +52,9 @@ pub struct Qcow2Dev<T> {
     // set in case that any dirty meta is made
     need_flush: AtomicBool,
     flush_lock: AsyncMutex<()>,
+    // discard() runs alone: it releases host clusters, which must not have
+    // guest reads or writes in flight (held for read by read_at / write_at)
+    io_lock: AsyncRwLock<()>,
     // one refcount flush at a time: when flush_refcount() returns, nobody
     // else is still busy writing what it found clean
     refcount_flush_lock: AsyncMutex<()>,
@@ -116,6 +119,7 @@ impl<T: Qcow2IoOps> Qcow2Dev<T> {
             new_cluster: AsyncRwLock::new(Default::default()),
             need_flush: AtomicBool::new(false),
             flush_lock: AsyncMutex::new(()),
+            io_lock: AsyncRwLock::new(()),
             refcount_flush_lock: AsyncMutex::new(()),
         };
 
